@@ -125,6 +125,21 @@ PROPS = {
         level_text='~100 k edits per quick run are individually asserted and the rewritten text compared with an independent splice; held on the rewrites executed.',
         level_note='Trusted: the harness splice, the overlap-free visitor as enumeration of matches (judged by C01). Multi-line rewriter captures and rewriters with expansions are checked for invariants only (valid UTF-8, no panic).',
     ),
+    'C07': dict(
+        engines=[('vmon', 'c07')],
+        technique='runtime monitoring: reference-model oracle (template scanner + documented indentation model) vs generate_replacement, byte for byte',
+        rule=('per corpus excerpt (23 languages), also re-indented by 3 and 8 spaces: a node is cut into a pattern with 1-3 holes or a trailing $$$V, matched, and random templates over its variables '
+              '(literal text incl. Unicode, `$x`, lone `$`, `a$`, `$VAR`, `$$VAR`, `$$$VAR`, variables glued to lower-case identifiers, $UNBOUND, newlines followed by 0/2/4/7 spaces) are expanded by '
+              'TemplateFix and by the &str replacer; the reference expands literal text verbatim, bound variables to the exact source slice, unbound ones to nothing, moves continuation lines of a '
+              'capture from indentation in_i to in_i - indent(capture line) + indent(template slot line) and shifts every later line by indent(match line). Identity: the pattern text (de-indented by '
+              'the match line) used as fix must reproduce the node text when C02\'s shape premise holds. Transformed variables (substring) through a real rule. '
+              'No verdict: captures with tabs/CR, blank or under-indented continuation lines, match more than 480 bytes into its line, templates outside the scanner\'s verdict set. '
+              'evaluations = (match, template) pairs. Non-trivial = distinct pairs with a multi-line capture or a multi-line template.'),
+        floor={'quick': 10000, 'thorough': 300000},
+        level_text='Tens of thousands of template expansions per quick run compared byte for byte with an independent model; held on the expansions executed.',
+        level_note='Trusted: refsem/template.rs (scanner shared with C20, indentation model transcribed from the module documentation of replacer/indent.rs and the property statement), bindings taken from the real match (judged by C02).',
+        assumptions=['indentation clause restricted as in the statement (spaces only, no blank or under-indented continuation lines)'],
+    ),
 }
 
 NOT_APPLICABLE = {}
